@@ -87,6 +87,11 @@ def run(ck):
     tp = [t for t in regex_patterns(F, fi) if t[0].startswith("^")]
     okgz = len(tp) >= 2 and all(t[0].endswith("(\\.gz)?$") for t in tp)
     ck.ob("C10-O3", sitestr(fi), okgz, "the next index is searched over plain and .gz names: a leftover of either form is never reused" if okgz else "the index search ignores one of the two forms", key="findNextIndexForDate|leftover-form")
+    # compressFile() opens <rotated name>.gz for writing, which truncates: the rotated name must be one no earlier rotation has used. That is the
+    # next-index rule over a scan that sees every name the writer produces (shared with C05-O6 / C09-O2 / C09-O3)
+    from rules.c09 import next_index, name_scheme
+    next_index(ck, S, "C10-O3")
+    name_scheme(ck, S, "C10-O3")
     # ---- O4
     allopens = [(rt, o) for o in opens] + [(S.fs_ctor, o) for o in S.fs_ctor.calls(("QFile::open", "QIODevice::open", "QFileDevice::open"))]
     for f, o in allopens:
